@@ -14,6 +14,11 @@ import (
 	"time"
 )
 
+// solverLogic: QF_BV lets z3 use its incremental SAT core (an order of
+// magnitude faster here than the default); harnesses that use uninterpreted
+// functions run under QF_UFBV. Any "(error" line makes a query inconclusive.
+var solverLogic = "QF_BV"
+
 type SatResult int
 
 const (
@@ -86,6 +91,7 @@ func (s *Solver) start() error {
 	if s.kind != "cvc5" {
 		s.send(fmt.Sprintf("(set-option :timeout %d)", s.timeoutMs))
 		s.send("(set-option :model.completion true)")
+		s.send("(set-logic " + solverLogic + ")")
 	} else {
 		s.send("(set-logic ALL)")
 	}
@@ -269,29 +275,37 @@ func (s *Solver) Check(pc []*Term, extra ...*Term) SatResult {
 		return Sat
 	}
 	s.send("(check-sat-assuming (" + strings.Join(lits, " ") + "))")
+	s.send("(echo \"@sync\")")
+	res := Unknown
+	got := false
+	errSeen := false
 	for {
 		l := s.readLine()
 		switch {
+		case l == "@sync" || l == "\"@sync\"":
+			if errSeen || !got {
+				return Unknown
+			}
+			return res
 		case l == "sat":
-			return Sat
+			res, got = Sat, true
 		case l == "unsat":
-			return Unsat
+			res, got = Unsat, true
 		case l == "unknown" || l == "timeout":
-			return Unknown
+			res, got = Unknown, true
 		case strings.HasPrefix(l, "(error"):
 			s.Errors++
+			errSeen = true
 			fmt.Fprintln(os.Stderr, "solver error:", l)
 			if strings.Contains(l, "solver died") {
 				s.restart()
+				return Unknown
 			}
-			return Unknown
 		case l == "":
-			continue
 		default:
-			// unexpected chatter
 			fmt.Fprintln(os.Stderr, "solver says:", l)
 			s.Errors++
-			return Unknown
+			errSeen = true
 		}
 	}
 }
